@@ -23,17 +23,41 @@ Definition occurrences (t : Z) : list (string * Z * Z) :=
   flat_map (fun k => map (fun it => (c_name k, i_lo it, i_hi it)) (filter (fun it => i_tag it =? t) (items_of k)))
            (e_classes Schemas.E).
 
-(* every occurrence of a listed tag is guarded by exactly the specification's version and never closes again *)
+(* occurrences known NOT to be guarded in the code as it is (known finding C16-attestation-credential-ungated): the
+   Attestation credential is a KMIP 1.2 structure, AttestationCredential.read/write have no version test *)
+Definition SchemaKnownUngated : list (string * string) := [("AttestationCredential", "ATTESTATION_TYPE")].
+Definition known_ungated (c t : string) : bool :=
+  existsb (fun e => String.eqb (fst e) c && String.eqb (snd e) t) SchemaKnownUngated.
+
+Definition item_guard_ok (v0 : ver) (it : item) : bool := (i_lo it =? v10 v0) && (v10 (2, 0) <? i_hi it).
+
+(* every occurrence of a listed tag, outside the known-ungated ones, is guarded by exactly the specification's version
+   and never closes again *)
 Definition schema_rows_ok : bool :=
   forallb (fun e => let '(_, t, v0) := e in
                     match tag_value t with
                     | None => false
-                    | Some z => forallb (fun k => forallb (fun it => negb (i_tag it =? z) || ((i_lo it =? v10 v0) && (v10 (2, 0) <? i_hi it)))
+                    | Some z => forallb (fun k => forallb (fun it => negb (i_tag it =? z) || known_ungated (c_name k) t || item_guard_ok v0 it)
                                                           (items_of k)) (e_classes Schemas.E)
                     end) SpecFieldVersions.
 
-(* rows of the table that do occur in the schemas today (the other classes are hand-modelled by the codec builder and
-   excluded from Schemas.E; they are covered by field_gated over PKGen.VersionFields and by the field x version K) *)
+(* the same without the exception: false today *)
+Definition schema_rows_ok_full : bool :=
+  forallb (fun e => let '(_, t, v0) := e in
+                    match tag_value t with
+                    | None => false
+                    | Some z => forallb (fun k => forallb (fun it => negb (i_tag it =? z) || item_guard_ok v0 it)
+                                                          (items_of k)) (e_classes Schemas.E)
+                    end) SpecFieldVersions.
+
+(* each exception is real: the class is in the schemas and holds an unguarded item with that tag *)
+Definition known_ungated_real : bool :=
+  forallb (fun e => match tag_value (snd e), find_cls Schemas.E (fst e) with
+                    | Some z, Some k => existsb (fun it => (i_tag it =? z) && (i_lo it =? 0)) (items_of k)
+                    | _, _ => false
+                    end) SchemaKnownUngated.
+
+(* rows of the table that do occur in the schemas today *)
 Definition schema_covered_rows : list (string * string) :=
   map (fun e => (fst (fst e), snd (fst e)))
       (filter (fun e => match tag_value (snd (fst e)) with
@@ -42,14 +66,23 @@ Definition schema_covered_rows : list (string * string) :=
                         | None => false
                         end) SpecFieldVersions).
 
-(* class-level refusals recorded by the schema translator agree with SpecClassVersions *)
+(* class-level refusals recorded by the schema translator: every row whose class the specification table knows must carry
+   exactly the specification's version; rows of classes the table does not know are listed (reported in the evidence) *)
 Definition schema_class_minver_ok : bool :=
   forallb (fun e => match assoc_s (fst e) SpecClassVersions with
                     | Some v0 => snd e =? v10 v0
-                    | None => false
-                    end) class_minver.
+                    | None => true
+                    end) class_minver
+  && forallb (fun e => existsb (fun r => String.eqb (fst r) (fst e)) class_minver
+                       || negb (existsb (fun k => String.eqb (c_name k) (fst e)) (e_classes Schemas.E))) SpecClassVersions.
+Definition schema_class_minver_uncovered : list (string * Z) :=
+  filter (fun e => match assoc_s (fst e) SpecClassVersions with Some _ => false | None => true end) class_minver.
 
 Lemma schema_rows_ok_true : schema_rows_ok = true.
+Proof. vm_compute; reflexivity. Qed.
+Lemma schema_rows_ok_full_false : schema_rows_ok_full = false.
+Proof. vm_compute; reflexivity. Qed.
+Lemma known_ungated_real_true : known_ungated_real = true.
 Proof. vm_compute; reflexivity. Qed.
 Lemma schema_class_minver_ok_true : schema_class_minver_ok = true.
 Proof. vm_compute; reflexivity. Qed.
@@ -63,39 +96,70 @@ Qed.
 
 Lemma spec_rows_respected : forall c t v0 z k it,
   In (c, t, v0) SpecFieldVersions -> tag_value t = Some z -> In k (e_classes Schemas.E) ->
+  known_ungated (c_name k) t = false ->
   In it (items_of k) -> i_tag it = z -> i_lo it = v10 v0 /\ v10 (2, 0) < i_hi it.
 Proof.
-  intros c t v0 z k it Hrow Ht Hk Hit Htag.
+  intros c t v0 z k it Hrow Ht Hk Hex Hit Htag.
   pose proof schema_rows_ok_true as R; unfold schema_rows_ok in R.
   pose proof (forallb_In _ _ _ (c, t, v0) R Hrow) as R1; cbv beta iota in R1; rewrite Ht in R1.
   pose proof (forallb_In _ _ _ k R1 Hk) as R2; cbv beta in R2.
   pose proof (forallb_In _ _ _ it R2 Hit) as R3; cbv beta in R3.
-  rewrite Htag, Z.eqb_refl in R3; simpl in R3.
+  rewrite Htag, Z.eqb_refl, Hex in R3; simpl in R3; unfold item_guard_ok in R3.
   apply andb_true_iff in R3; destruct R3 as [A B]; apply Z.eqb_eq in A; apply Z.ltb_lt in B; split; assumption.
 Qed.
 
-(* the statement over the schemas: under version v the reader and the writer of any class only consider an item carrying
-   a tag of the specification table when v is at least the version that introduced the field *)
+(* the statement over the schemas: under version v the reader and the writer of any class (outside the known-ungated
+   occurrence) only consider an item carrying a tag of the specification table when v is at least the version that
+   introduced the field *)
 Lemma field_gated_schemas_lemma : forall c t v0 z k v it,
   In (c, t, v0) SpecFieldVersions -> tag_value t = Some z -> In k (e_classes Schemas.E) ->
+  known_ungated (c_name k) t = false ->
   (In it (filter (active v) (c_rd k)) \/ In it (filter (active v) (c_wr k))) -> i_tag it = z ->
   v10 v0 <= v.
 Proof.
-  intros c t v0 z k v it Hrow Ht Hk Hit Htag.
+  intros c t v0 z k v it Hrow Ht Hk Hex Hit Htag.
   assert (Hin : In it (items_of k) /\ i_lo it <= v < i_hi it).
   { destruct Hit as [H|H]; apply active_filter in H; destruct H as [H1 H2]; (split; [|exact H2]);
       unfold items_of; apply in_or_app; [left | right]; assumption. }
   destruct Hin as [Hin Hact].
-  destruct (spec_rows_respected c t v0 z k it Hrow Ht Hk Hin Htag) as [Hlo _]; lia.
+  destruct (spec_rows_respected c t v0 z k it Hrow Ht Hk Hex Hin Htag) as [Hlo _]; lia.
 Qed.
 
-(* and conversely from that version on it is considered (the item stays active up to and including 2.0) *)
+(* the unrestricted statement is false on the code as it is: witness AttestationCredential / ATTESTATION_TYPE under 1.0 *)
+Definition ungated_witness : option (cls * item) :=
+  match find_cls Schemas.E "AttestationCredential", tag_value "ATTESTATION_TYPE" with
+  | Some k, Some z =>
+      match find (fun it => (i_tag it =? z) && active 10 it) (c_rd k) with
+      | Some it => Some (k, it)
+      | None => None
+      end
+  | _, _ => None
+  end.
+
+Lemma field_gated_schemas_refuted : exists c t v0 z k v it,
+  In (c, t, v0) SpecFieldVersions /\ tag_value t = Some z /\ In k (e_classes Schemas.E) /\
+  In it (filter (active v) (c_rd k)) /\ i_tag it = z /\ v < v10 v0.
+Proof.
+  destruct ungated_witness as [[k it]|] eqn:W; [|vm_compute in W; discriminate].
+  unfold ungated_witness in W.
+  destruct (find_cls Schemas.E "AttestationCredential") as [k'|] eqn:F; [|discriminate].
+  destruct (tag_value "ATTESTATION_TYPE") as [z|] eqn:Tz; [|discriminate].
+  destruct (find (fun it0 => (i_tag it0 =? z) && active 10 it0) (c_rd k')) as [it'|] eqn:G; [|discriminate].
+  inversion W; subst k' it'.
+  unfold find_cls in F; apply find_some in F; destruct F as [Hk _].
+  apply find_some in G; destruct G as [G1 G2]; apply andb_true_iff in G2; destruct G2 as [G2 G3]; apply Z.eqb_eq in G2.
+  exists "QueryResponsePayload"%string, "ATTESTATION_TYPE"%string, (1, 2), z, k, 10, it.
+  split; [vm_compute; tauto|]. split; [assumption|]. split; [assumption|].
+  split; [apply filter_In; split; assumption|]. split; [assumption | vm_compute; reflexivity].
+Qed.
+
 Lemma field_active_from : forall c t v0 z k v it,
   In (c, t, v0) SpecFieldVersions -> tag_value t = Some z -> In k (e_classes Schemas.E) ->
+  known_ungated (c_name k) t = false ->
   In it (items_of k) -> i_tag it = z -> v10 v0 <= v <= v10 (2, 0) -> active v it = true.
 Proof.
-  intros c t v0 z k v it Hrow Ht Hk Hit Htag Hv.
-  destruct (spec_rows_respected c t v0 z k it Hrow Ht Hk Hit Htag) as [Hlo Hhi].
+  intros c t v0 z k v it Hrow Ht Hk Hex Hit Htag Hv.
+  destruct (spec_rows_respected c t v0 z k it Hrow Ht Hk Hex Hit Htag) as [Hlo Hhi].
   unfold active; apply andb_true_iff; split; [apply Z.leb_le | apply Z.ltb_lt]; lia.
 Qed.
 
